@@ -155,14 +155,7 @@ func (m *fmdns) SetAutoAccept(bool)                  {}
 func (m *fmdns) QRCodeText() string                  { return "" }
 func (m *fmdns) RequestMdnsEntries()                 {}
 
-func freePort() int {
-	l, err := vh.Listen("127.0.0.1:0")
-	if err != nil {
-		panic(err)
-	}
-	defer l.Close()
-	return l.Addr().(*net.TCPAddr).Port
-}
+func freePort() int { return vh.HubPort() }
 
 var tlsVer = map[int]uint16{10: tls.VersionTLS10, 11: tls.VersionTLS11, 12: tls.VersionTLS12, 13: tls.VersionTLS13}
 
